@@ -32,6 +32,7 @@ structure Stmt where
   size : Nat
   actor : Nat
   named : Bool := false   -- the format string has named placeholders (the sink is handed key/value pairs)
+  enqAt : Nat := 0        -- ghost: the clock value at which the record was committed to the queue
   deriving Repr, Inhabited
 
 inductive Ev
@@ -150,6 +151,8 @@ structure BSt where
   -- ghost history (never read by the machine)
   log : List Ev := []                 -- every event ever emitted, newest first
   reported : Nat := 0                 -- sum of the counts reported through "dropped"/"blocked" notifications
+  popLog : List Stmt := []            -- every event popped by the backend, newest first (global processing order)
+  flagLog : List (Nat × Nat) := []    -- (flag, length of `log` when it was raised), newest first
 
 /-! ### small helpers -/
 
